@@ -42,7 +42,7 @@ Inductive op :=
 
 Definition world := gmap nat st.
 
-Definition vset (X : gset nat) : value := VL (VN <$> elements X).
+Definition vset (X : gset nat) : value := VL (VN <$> merge_sort le (elements X)).
 
 Definition run_op (w : world) (o : op) : MS value :=
   match o with
@@ -86,7 +86,12 @@ Definition run_op (w : world) (o : op) : MS value :=
 (** one call on manager [m] of the world *)
 Definition step (w : world) (m : nat) (o : op) : world * res value :=
   let s := default empty_st (w !! m) in
-  let '(r, s') := run_op w o s in
+  let '(r, s') := match o with
+                  | OCopy src u =>
+                      (* `if from_bdd is to_bdd: return u` *)
+                      if decide (src = m) then (Ok (VZ u), s) else run_op w o s
+                  | _ => run_op w o s
+                  end in
   (* the oracle tape is scoped to one operation *)
   let s' := match o with OTape _ => s' | _ => s' <| tape := [] |> end in
   (<[m := s']> w, r).
